@@ -524,7 +524,38 @@ def algebra_job(job):
     return [dict(base, status=PROVED)]
 
 
+def compat_job(job):
+    """Concrete, total over the finite direction domain: a buffer of direction b on a port of direction p is constructible iff
+    p is bidirectional or p == b; every other combination is refused with ValueError."""
+    kind, bcls, bdir, pdir = job["pkind"], job["bcls"], job["bdir"], job["pdir"]
+    text = f"{bcls}({bdir!r}, {kind}Port(direction {pdir!r}, width 2))"
+    base = {"id": job["id"], "program": text, "kind": "port/buffer direction combinations", "nontrivial": True,
+            "assertion": "the buffer is constructible iff the port is bidirectional or has the buffer's direction; otherwise ValueError"}
+    if kind == "SingleEnded":
+        port = io.SingleEndedPort(IOPort(2, name="pa"), direction=pdir)
+    elif kind == "Differential":
+        port = io.DifferentialPort(IOPort(2, name="pa_p"), IOPort(2, name="pa_n"), direction=pdir)
+    else:
+        port = io.SimulationPort(pdir, 2, name="pa")
+    legal = pdir == "io" or pdir == bdir
+    try:
+        buf = getattr(io, bcls)(bdir, port)
+        got = "constructed"
+        if buf.signature.direction != io.Direction(bdir):
+            got = f"constructed with direction {buf.signature.direction}"
+    except ValueError:
+        got = "ValueError"
+    except Exception as ex:
+        got = f"{type(ex).__name__}: {ex}"
+    want = "constructed" if legal else "ValueError"
+    if got != want:
+        return [dict(base, status=VIOLATION, detail=f"{text}: {got}, expected {want}", signature={"kind": "direction-combination", "bcls": bcls}, replay={"job": job})]
+    return [dict(base, status=PROVED)]
+
+
 def job_fn(job):
+    if job["what"] == "compat":
+        return compat_job(job)
     if job["what"] == "algebra":
         return algebra_job(job)
     if job["what"] == "sim":
@@ -543,8 +574,8 @@ def replay(path):
         x = real_job(job)[0]
         print(x.get("detail"))
         return 1 if x["status"] == VIOLATION else 0
-    if job["what"] == "algebra":
-        x = algebra_job(job)[0]
+    if job["what"] in ("algebra", "compat"):
+        x = (algebra_job if job["what"] == "algebra" else compat_job)(job)[0]
         print(x.get("detail"))
         return 1 if x["status"] == VIOLATION else 0
     job["port"] = _tup(job["port"])
@@ -621,6 +652,11 @@ def main(tier, seed):
         for d1 in ("i", "o", "io"):
             for d2 in ("i", "o", "io"):
                 jobs.append({"id": f"alg-{pk}-{d1}-{d2}", "what": "algebra", "pkind": pk, "d1": d1, "d2": d2})
+    for pk in ("SingleEnded", "Differential", "Simulation"):
+        for bcls in ("Buffer", "FFBuffer", "DDRBuffer"):
+            for bdir in ("i", "o", "io"):
+                for pdir in ("i", "o", "io"):
+                    jobs.append({"id": f"compat-{bcls}-{pk}-{bdir}-{pdir}", "what": "compat", "pkind": pk, "bcls": bcls, "bdir": bdir, "pdir": pdir})
     # FFBuffer with named domains: every combination of named / defaulted input and output domain, an edge of each domain involved
     for w, inv in ((1, (True,)), (2, (False, True))) + (() if tier == "quick" else ((3, (True, True, False)),)):
         for pdir, bdir in (("i", "i"), ("o", "o"), ("io", "i"), ("io", "o"), ("io", "io")):
